@@ -974,10 +974,39 @@ func (g *GroupWorld) operatorAction(s *Stream, prefer string) {
 		g.ev("op-force-taint-many")
 	case "relabel":
 		upd(func(c *v1.Node) {
-			if c.Labels[g.cfg.LabelKey] == g.cfg.LabelValue {
-				c.Labels[g.cfg.LabelKey] = "moved"
-			} else {
+			if c.Labels == nil {
+				c.Labels = map[string]string{}
+			}
+			switch {
+			case c.Labels[g.cfg.LabelKey] != g.cfg.LabelValue:
+				// back home
+				for _, og := range w.groups {
+					if og != g && og.cfg.LabelKey != g.cfg.LabelKey {
+						delete(c.Labels, og.cfg.LabelKey)
+					}
+				}
 				c.Labels[g.cfg.LabelKey] = g.cfg.LabelValue
+			case v%3 == 2 && len(w.groups) > 1 && !w.cfg.NoMislabel:
+				// mislabelled into ANOTHER group: its instance stays in this group's ASG
+				og := w.groups[(g.cfg.Idx+1+int(v>>4)%(len(w.groups)-1))%len(w.groups)]
+				for _, cand := range w.groups {
+					if cand != g && cand.cfg.Idx == (g.cfg.Idx+1+int(v>>4)%(len(w.groups)-1))%len(w.groups) {
+						og = cand
+					}
+				}
+				if og == g {
+					c.Labels[g.cfg.LabelKey] = "moved"
+					break
+				}
+				if og.cfg.LabelKey == g.cfg.LabelKey {
+					c.Labels[g.cfg.LabelKey] = og.cfg.LabelValue
+				} else {
+					c.Labels[g.cfg.LabelKey] = "moved"
+					c.Labels[og.cfg.LabelKey] = og.cfg.LabelValue
+				}
+				w.stats.World["node-mislabelled-into-another-group"]++
+			default:
+				c.Labels[g.cfg.LabelKey] = "moved"
 			}
 		})
 	}
